@@ -295,6 +295,8 @@ def render(r, a_list, sign_response=None, sign_assertions=None, alg='sha256', en
         r['assertions'] = ['<saml:EncryptedAssertion>%s</saml:EncryptedAssertion>' % x for x in rendered]
     else:
         r['assertions'] = rendered
+    # ready-made assertion elements (e.g. an EncryptedAssertion cut out of another document) placed before / after the rendered ones
+    r['assertions'] = list(r.get('extra_assertions_first', [])) + r['assertions'] + list(r.get('extra_assertions_last', []))
     if sign_response is not None:
         ki = ('x509', world.cert_body(sign_response)) if keyinfo == 'x509' else keyinfo
         r['signature'] = sig_template(r['id'], alg, ki)
